@@ -134,7 +134,32 @@ func (ex *Exec) callWith(f *frame, st *State, instr ssa.Instruction, cc *ssa.Cal
 		return
 	}
 	// havoc inferred write set
+	if !isRulio(callee) {
+		// local cells handed to a dependency function may be written by it during this call
+		ex.noRestore = map[string]bool{}
+		for _, a := range cc.Args {
+			var base ssa.Value = a
+			if mi, ok := base.(*ssa.MakeInterface); ok {
+				base = mi.X
+			}
+			for {
+				if fa, ok := base.(*ssa.FieldAddr); ok {
+					base = fa.X
+					continue
+				}
+				if ia, ok := base.(*ssa.IndexAddr); ok {
+					base = ia.X
+					continue
+				}
+				break
+			}
+			if al, ok := base.(*ssa.Alloc); ok {
+				ex.noRestore[f.val(al).S] = true
+			}
+		}
+	}
 	ex.havocSet(st, ex.V.modSet(callee))
+	ex.noRestore = nil
 	rs := ex.freshResults(f, st, sig, hint)
 	ex.setResult(f, res, rs)
 	if !isRulio(callee) {
@@ -244,7 +269,19 @@ func (ex *Exec) newFrame(fn *ssa.Function, pfx string) *frame {
 		clos: map[ssa.Value]*closureInfo{}, origin: map[ssa.Value]string{}, rangeMap: map[ssa.Value]ssa.Value{}}
 }
 
+// advanceClock: any call may read the clock; the ghost clock only moves forward.
+func (ex *Exec) advanceClock(st *State) {
+	if _, ok := ex.compSort("G:clock"); !ok {
+		return
+	}
+	old := ex.get(st, "G:clock", SInt)
+	nw := ex.sc.freshConst("hv:clock", SInt)
+	st.heap["G:clock"] = nw
+	ex.sc.assert(app(SBool, ">=", nw, old))
+}
+
 func (ex *Exec) havocSet(st *State, mods map[string]bool) {
+	ex.advanceClock(st)
 	if mods["*"] {
 		for _, k := range sortedKeys(ex.V.compSorts) {
 			if k == compAlloc || strings.HasPrefix(k, "LK:") || strings.HasPrefix(k, "G:") {
@@ -579,10 +616,10 @@ func (ex *Exec) intrinsic(f *frame, st *State, callee *ssa.Function, cc *ssa.Cal
 		t := sc.freshConst("now", timeSort())
 		nanos := sc.declareFun("time.nanos", []string{t.Sort}, SInt)
 		last := ex.get(st, "G:clock", SInt)
-		ex.assume(st, app(SBool, ">=", app(SInt, nanos, t), last))
+		ex.assume(st, and(app(SBool, ">=", app(SInt, nanos, t), last), app(SBool, ">=", app(SInt, nanos, t), intLit(1000000000))))
 		ex.set(st, "G:clock", app(SInt, nanos, t))
 		set(t)
-		ex.note("intrinsic: time.Now() returns a fresh instant >= every earlier reading (wall clock, monotone)")
+		ex.note("intrinsic: time.Now() returns a fresh instant >= every earlier reading (wall clock, monotone, after 1970-01-01T00:00:01Z)")
 		return true
 	case "(time.Time).UTC", "(time.Time).Local", "(time.Time).Round", "(time.Time).Truncate":
 		if n == "(time.Time).UTC" || n == "(time.Time).Local" {
